@@ -96,8 +96,10 @@ prop("C18", "exploration",
      _b(3000, 60, 200000, 900), technique="seeded operation histories and callback schedules against an executable reference model (real component; subscribers are stubs)")
 
 prop("C19", "exploration",
-     "component harness: the real response assembler (peerLinkTracker + linktracker + responseBuilder) driven through ResponseStream transactions with a capturing message handler; generated histories (10-60 operations) interleave link traversals (6 CIDs, present or missing) of 2-5 requests of one peer with dedup-key assignments (two keys and the default scope), ignore lists, skip counts, FinishRequest and ClearRequest, then one later request that re-traverses everything; each send decision, block index and completeness status is compared with an executable model written from the statement; distinct = distinct trace hash",
-     _b(3000, 60, 200000, 900), technique="seeded operation histories against an executable reference model (real component; message handler and subscriber are stubs)")
+     "component harness: the real response assembler (peerLinkTracker + linktracker + responseBuilder) driven through ResponseStream transactions with a capturing message handler; generated histories (10-60 operations) interleave link traversals (6 CIDs, present or missing) of 2-5 requests of one peer with dedup-key assignments (two keys and the default scope), ignore lists, skip counts, FinishRequest and ClearRequest, then one later request that re-traverses everything; each send decision, block index and completeness status is compared with an executable model written from the statement; second family (every other run): 2-4 requests each served by a goroutine of its own, the scheduler choosing when each operation starts and - the test binary of this property is built against a scratch copy of /repo in which tools/lockyield has put a scheduling point before every lock acquisition of the tracker's files - where inside the tracker it is overtaken; two traversals of one block that are both told to send while neither request has begun to finish are a violation; distinct = distinct trace hash",
+     _b(3000, 60, 200000, 900), technique="seeded operation histories against an executable reference model (real component; message handler and subscriber are stubs); concurrent callers over a lock-yield build",
+     probes=["c19-traversals-overlapped-inside-the-tracker"],
+     lock_yield_files=["responsemanager/responseassembler/peerlinktracker.go", "responsemanager/responseassembler/responseassembler.go", "linktracker/linktracker.go"])
 
 _MQ = "component world: the real message queue, peer manager, allocator and publisher over the simulated network (real libp2p_impl.go codec and stream handling, scripted receiving peers); 2-11 queued operations (blocks of 100-300 B and occasionally 300 KiB so that two do not fit one message, extension data, status codes) for 1-3 requests of 1-2 peers, each operation carrying a unique marker so that reports can be attributed; Connected/Disconnected notifications in drawn number and order; send faults (fail, lost ack, stall until the write deadline), connect failures, 1-3 retries; a random subset of seven internal yield points (after the reservation, after the build, on entering the done arm, before the queue exits, before Shutdown in Disconnected, in the GetProcess miss window, between GetProcess and the call) is active per run"
 prop("C15", "fault_enumeration", _MQ + "; oracle: once all queues are idle AllocatedForPeer and Stats are zero; distinct = distinct trace hash",
